@@ -350,15 +350,19 @@ CLAIMED = {
              "of the one meant (%f: eps = 5e-7), every point moves by at most eps(|x|+|y|+1) per coordinate (ordered-field triangle "
              "inequality) - the tolerance the oracle uses is this bound times the viewport scale; truthiness-guarded dimensions: a "
              "non-zero dimension is written and read back unchanged, a zero one is omitted and read back as the reader's default, "
-             "harmless where that default is 0 and provably not where it is 1 (negation theorem; known finding). Everything else is "
+             "harmless where that default is 0 and provably not where it is 1 (negation theorem; known finding). The writer model is "
+             "tied to the code on every run: for every shape written directly under the root svg, the transform attribute found in "
+             "the XML is compared with Model/Write.writtenMatrix (source matrix times the inverse viewBox transform, within the %f "
+             "rounding) and the presence and value of each dimension attribute with Model/Write.writeDim. Everything else is "
              "decided on the implementation: trees of C03's generator parsed with reify False/True and constructor-built SVG/Group "
              "trees (every shape kind, transforms of both determinant signs, viewBox present/absent) are written with string_xml "
              "(and write_xml plain/.svgz in a scratch directory for a subset), checked well-formed, parsed back and compared shape by "
              "shape (count, order, kind, id, absolute geometry within the proved bound, fill, stroke incl. alpha, rendered stroke "
              "width), and the second generation is compared with the first.",
-        note="Partial: the writer's attribute selection and paint serialisation are not modelled beyond the transform and the "
-             "dimension guard; the round trip itself is an oracle relation on the implementation (no executable Lean writer to "
-             "differential-test), so this check's reach for writer changes is that of its generator. Paths with arc commands are "
+        note="Partial: the writer's paint serialisation, point lists, path data and the attributes copied from the source element are not "
+             "modelled (only the transform and the dimension guard are); for those the round trip itself - an oracle relation on the "
+             "implementation - is what decides, so the check's reach there is that of its generator. The geometry tolerance is the "
+             "proved bound instantiated with the actual rounding of each written matrix (zero for the identity). Paths with arc commands are "
              "not generated (arc radii are printed with 6 digits: known finding C07-arc-d-6digits). Known findings: C20-nested-svg "
              "(shapes inside nested svg elements come back displaced), C20-non-scaling-stroke-reified (width scaled twice), "
              "C20-zero-dimension. Three fix: commits (reified circle with two radii written as circle, use written with its "
